@@ -1,5 +1,6 @@
 (** C20 — generic lemmas about the thread-pool semantics and the rank-order deadlock theorem. *)
 From Coq Require Import ZArith List Bool Lia Permutation Arith.
+
 From GV Require Import Conc.Sem.
 Import ListNotations.
 
@@ -64,6 +65,33 @@ Proof.
   intros. destruct (upd_nth_split _ i x a l H) as (l1 & l2 & E1 & E2 & _).
   rewrite E2, E1. rewrite !flat_map_app. simpl.
   apply Permutation_app_head. apply Permutation_app_tail. auto.
+Qed.
+
+(** NoDup of concatenations *)
+Lemma nodup_app_iff : forall (a b : list Z), NoDup (a ++ b) <-> NoDup a /\ NoDup b /\ (forall x, In x a -> ~ In x b).
+Proof.
+  induction a; simpl; intros.
+  - split; [intros; repeat split; auto; constructor | tauto].
+  - split.
+    + intros H. inversion H; subst. apply IHa in H3. destruct H3 as (Ha & Hb & Hd).
+      repeat split; auto.
+      * constructor; auto. intro. apply H2. apply in_or_app. auto.
+      * intros x [->|Hx]; auto. intro. apply H2. apply in_or_app. auto.
+    + intros (Ha & Hb & Hd). inversion Ha; subst. constructor.
+      * intro Hi. apply in_app_or in Hi. destruct Hi; auto. apply (Hd a); auto.
+      * apply IHa. repeat split; auto.
+Qed.
+
+Lemma nodup_flat_map_suffix : forall A (p g : A -> list Z) l,
+  NoDup (flat_map (fun a => p a ++ g a) l) -> NoDup (flat_map g l).
+Proof.
+  induction l; simpl; intros H; [constructor|].
+  rewrite <- app_assoc in H. apply nodup_app_iff in H. destruct H as (_ & H & _).
+  apply nodup_app_iff in H. destruct H as (Hg & Hr & Hd).
+  apply nodup_app_iff. repeat split; auto.
+  intros x Hx Hi. apply (Hd x Hx).
+  apply in_flat_map in Hi. destruct Hi as (b & Hb & Hxb).
+  apply in_flat_map. exists b. split; auto. apply in_or_app. auto.
 Qed.
 
 (** sums over a pool *)
@@ -228,3 +256,94 @@ Proof.
   - apply andb_false_iff. right. apply negb_false_iff. apply existsb_exists.
     exists i. split; auto. apply in_seq. pose proof (lenabled_exists _ _ E). lia.
 Qed.
+
+(** * straight-line execution of one operation *)
+Section Straight.
+  Variables (St L K Op Out : Type).
+  Variable code : Op -> list K.
+  Variable exec : K -> St -> L -> St * L * ctl Out.
+
+  Fixpoint run_steps (ks : list K) (s : St) (l : L) : St * L * option Out :=
+    match ks with
+    | [] => (s, l, None)
+    | k :: r => match exec k s l with
+                | (s', l', Next) => run_steps r s' l'
+                | (s', l', Goto _) => (s', l', None)
+                | (s', l', Ret o) => (s', l', Some o)
+                end
+    end.
+
+  Hypothesis no_goto : forall k s l s' l' p, exec k s l = (s', l', Goto p) -> False.
+
+  Lemma skipn_nth_none : forall A (l : list A) n, nth_error l n = None -> skipn n l = [].
+  Proof. induction l; destruct n; simpl; intros; auto; discriminate. Qed.
+  Lemma skipn_nth_some : forall A (l : list A) n x, nth_error l n = Some x -> skipn n l = x :: skipn (S n) l.
+  Proof. induction l; destruct n; simpl; intros; try discriminate. inversion H; auto. apply IHl; auto. Qed.
+
+  Lemma exec_op_steps : forall fuel op pc s l,
+    (length (skipn pc (code op)) <= fuel)%nat ->
+    exec_op code exec fuel op pc s l = run_steps (skipn pc (code op)) s l.
+  Proof.
+    induction fuel; intros op pc s l Hl.
+    - destruct (skipn pc (code op)) eqn:E; simpl in Hl; [|lia]. reflexivity.
+    - simpl. destruct (nth_error (code op) pc) as [k|] eqn:E.
+      + rewrite (skipn_nth_some _ _ _ _ E) in *. cbn [run_steps]. cbn [length] in Hl.
+        destruct (exec k s l) as [[s' l'] [|p|o]] eqn:X; auto.
+        * apply IHfuel. lia.
+        * exfalso. eapply no_goto; eauto.
+      + rewrite (skipn_nth_none _ _ _ E). reflexivity.
+  Qed.
+
+  Lemma run_steps_app_next : forall a b s l s' l',
+    run_steps a s l = (s', l', None) -> (forall k, In k a -> forall s l, snd (exec k s l) = Next) ->
+    run_steps (a ++ b) s l = run_steps b s' l'.
+  Proof.
+    induction a; simpl; intros.
+    - inversion H; auto.
+    - pose proof (H0 a (or_introl eq_refl) s l) as N.
+      destruct (exec a s l) as [[s1 l1] c]. simpl in N. subst c.
+      apply IHa; auto.
+  Qed.
+End Straight.
+
+(** threads never lose or reorder their operations *)
+Section Progress.
+  Variables (St L K Op Out : Type).
+  Variable code : Op -> list K.
+  Variable exec : K -> St -> L -> St * L * ctl Out.
+  Definition cur_ops (th : @thread L Op Out) : list Op := match t_op th with Some (op, _) => [op] | None => [] end.
+  Definition whole (th : @thread L Op Out) : list Op := rev (map fst (t_out th)) ++ cur_ops th ++ t_todo th.
+
+  Lemma whole_load : forall l todo o, whole (load l todo o) = rev (map fst o) ++ todo.
+  Proof. intros. destruct todo; unfold whole, cur_ops; simpl; auto. Qed.
+
+  Lemma whole_step : forall s th s' th', step_thread code exec s th = (s', th') -> whole th' = whole th.
+  Proof.
+    intros s [top tl ttodo tout] s' th' H. unfold step_thread in H. simpl in H.
+    destruct top as [[op pc]|]; [|inversion H; auto].
+    destruct (nth_error (code op) pc); [|inversion H; auto].
+    destruct (exec k s tl) as [[s1 l1] [|p|o]]; inversion H; subst; auto.
+    rewrite whole_load. unfold whole, cur_ops. simpl. rewrite <- app_assoc. reflexivity.
+  Qed.
+
+  Lemma whole_run : forall sched (c : @config St L Op Out),
+    map whole (pool (run code exec sched c)) = map whole (pool c).
+  Proof.
+    induction sched; simpl; intros; auto. rewrite IHsched. clear IHsched.
+    destruct (nth_error (pool c) a) as [th|] eqn:E; [|rewrite step_none; auto].
+    rewrite (step_unfold _ _ _ _ _ code exec c a th E).
+    destruct (step_thread code exec (sh c) th) as [s' th'] eqn:ST. simpl.
+    pose proof (whole_step _ _ _ _ ST) as W.
+    destruct (upd_nth_split _ a th' th (pool c) E) as (l1 & l2 & P1 & P2 & _).
+    rewrite P2, P1. rewrite !map_app. simpl. congruence.
+  Qed.
+
+  Lemma whole_init : forall (s0 : St) (l0 : L) (progs : list (list Op)),
+    map whole (pool (@init St L Op Out s0 l0 progs)) = progs.
+  Proof.
+    intros. unfold init. simpl. induction progs; simpl; auto. rewrite whole_load. simpl. congruence.
+  Qed.
+End Progress.
+Arguments run_steps {St L K Out}.
+Arguments whole {L Op Out}.
+Arguments cur_ops {L Op Out}.
